@@ -387,4 +387,24 @@ example : InSector (wt 2) 1 (fun b : Fin (2 ^ 2) => if b = 1 then (1 : ℂ) else
     intro h; subst h; exact hi (by decide +kernel)
   simp [this]
 
+/-- the hypotheses of the sector bound are satisfiable and the bound is attained: for `H = N` (Hermitian, commutes with
+itself) every eigenvector inside the `k`-particle sector has eigenvalue `k`, so `m = k` is admissible and the theorem
+yields `k ≤ (Uψ₀)† N (Uψ₀)` for every parameter vector -/
+example (L : ℕ) (exc : String) (params : Array GQ) (Ts : List Mat) (h : quccTerms L exc params = .ok Ts) (k : ℤ)
+    (ψ₀ : Fin (2 ^ L) → ℂ) (hn : star ψ₀ ⬝ᵥ ψ₀ = 1) (hs : InSector (wt L) k ψ₀) :
+    (k : ℝ) ≤ (ev (ansatzMat L Ts *ᵥ ψ₀) ((numberOp L).toM (2 ^ L))).re := by
+  have hH : ((numberOp L).toM (2 ^ L)).IsHermitian := by
+    rw [toM_numberOp]
+    exact Matrix.isHermitian_diagonal_of_self_adjoint _ (by
+      funext i; simp)
+  refine (C20_optimiser_energy_ge_sector_min L exc params Ts h k _ hH (Commute.refl _) ψ₀ hn hs k ?_).1
+  intro μ v hv0 hvs hv
+  rw [toM_numberOp, (inSector_iff_eigen (wt L) k v).mp hvs] at hv
+  obtain ⟨i, hi⟩ := Function.ne_iff.mp hv0
+  have := congrFun hv i
+  simp only [Pi.smul_apply, smul_eq_mul, Pi.zero_apply] at this hi
+  have h2 : ((k : ℤ) : ℂ) = (μ : ℂ) := mul_right_cancel₀ hi this
+  have h3 : ((k : ℝ) : ℂ) = (μ : ℂ) := by rw [← h2]; push_cast; rfl
+  exact le_of_eq (by exact_mod_cast h3)
+
 end Qib.Vqe
